@@ -322,7 +322,10 @@ CLAIMED = {
         "array_labels (the elements of an array signal are visited in declaration order, the k-th one labelled with its declared "
         "index, left - k for a descending and left + k for an ascending range - finding D20, repaired), record_fields, "
         "string_table_decoded (the prefix-compressed strings are reconstructed whatever the shared lengths), enum_bits_spec, "
-        "enum_lits_codes (an enumeration's width and binary codes). Not proved: a description of the hierarchy of every "
+        "enum_lits_codes (an enumeration's width and binary codes), ghw_leaf_var (a signal of a scalar or vector type becomes exactly "
+        "one variable with the name, kind, direction, width and declared range the file gives), header_decode_info_ok / "
+        "ghw_file_store_ops (the decode information of the header reader satisfies the premise of the section theorems, so that for a "
+        "whole file read_signals_ops and read_signals_time_table hold with no assumption about the header). Not proved: a description of the hierarchy of every "
         "declaration in terms of its type beyond these clauses, the cycle theorems for the scalar value types. Tie and oracle: the "
         "extracted model of the whole loader against wellen on every generated GHW file, the corpus files and truncated / corrupted "
         "headers (harness ghwhier / ghwfile vs model ghwh / ghwf); the extracted section model against "
